@@ -38,7 +38,7 @@ def run(part, args, env, mode=MODE, prop=PROPERTY):
     if part == 'enum':
         n = nt = 0
         for case in gridhist.enumerate_histories(mode, INITIALS[args['init']], args['depth'], args['shard'], args['of'],
-                                                 auto=(args['init'] % 2 == 1), v2=(args['init'] == 2)):
+                                                 auto=('plain' if args['init'] == 0 else args['init'] % 2 == 1), v2=(args['init'] == 2)):
             try:
                 flags = gridhist.check_history(case, mode)
             except Violation as v:
